@@ -294,14 +294,14 @@ package compose
 //@ func setCheckPointToCtx
 //@   props C05
 //@   ensures[set] cpOf(result) == cp && fresh(result)
-//@   ensures[others] pathOf(result) == pathOf(ctx) && ctxValue(result, "stateKey") == ctxValue(ctx, "stateKey")
+//@   ensures[others] ctxValue(result, "nodePathKey") == ctxValue(ctx, "nodePathKey") && ctxValue(result, "stateKey") == ctxValue(ctx, "stateKey")
 
 //@ func forwardCheckPoint
 //@   props C05
 //@   ensures[none] cpOf(ctx) == nil ==> result == ctx
 //@   ensures[sub] cpOf(ctx) != nil && in(nodeKey, cpOf(ctx).SubGraphs) ==> cpOf(result) == cpOf(ctx).SubGraphs[nodeKey]
 //@   ensures[clear] cpOf(ctx) != nil && !in(nodeKey, cpOf(ctx).SubGraphs) ==> cpOf(result) == nil
-//@   ensures[others] pathOf(result) == pathOf(ctx) && ctxValue(result, "stateKey") == ctxValue(ctx, "stateKey")
+//@   ensures[others] ctxValue(result, "nodePathKey") == ctxValue(ctx, "nodePathKey") && ctxValue(result, "stateKey") == ctxValue(ctx, "stateKey")
 
 //@ func getNodeKey
 //@   props C05 C16
@@ -315,7 +315,7 @@ package compose
 //@   props C05 C09 C16
 //@   requires is(ctxValue(ctx, "nodePathKey"), "*NodePath") ==> pathOf(ctx) != nil
 //@   ensures[path] pathOf(result) != nil && fresh(pathOf(result)) && len(pathOf(result).path) >= 1 && pathOf(result).path[len(pathOf(result).path) - 1] == key
-//@   ensures[others] cpOf(result) == cpOf(ctx) && ctxValue(result, "stateKey") == ctxValue(ctx, "stateKey")
+//@   ensures[others] ctxValue(result, "checkPointKey") == ctxValue(ctx, "checkPointKey") && ctxValue(result, "stateKey") == ctxValue(ctx, "stateKey")
 //@   ensures[parent_path_untouched] pathOf(ctx) != nil ==> forall(i int :: 0 <= i && i < cap(pathOf(ctx).path) ==> mem(pathOf(ctx).path, i) == old(mem(pathOf(ctx).path, i)))
 
 //@ spec ctxOK(ctx context.Context) bool = (is(ctxValue(ctx, "nodePathKey"), "*NodePath") ==> pathOf(ctx) != nil) && (is(ctxValue(ctx, "stateKey"), "*internalState") ==> unbox(ctxValue(ctx, "stateKey"), "*internalState") != nil)
@@ -415,12 +415,17 @@ package compose
 //@   ensures[rerun_recorded] err == nil ==> forall(j int :: 0 <= j && j < len(completedTasks) && completedTasks[j].err == InterruptAndRerun ==> inList(completedTasks[j].nodeKey, *interruptRerunNodes))
 //@   ensures[after_recorded] err == nil ==> forall(j int :: 0 <= j && j < len(completedTasks) && completedTasks[j].err == nil && inList(completedTasks[j].nodeKey, r.interruptAfterNodes) ==> inList(completedTasks[j].nodeKey, *interruptAfterNodes))
 //@   ensures[disjoint] disjointLists(*interruptRerunNodes, *interruptAfterNodes)
+//@   ensures[lists_where] (sameArray(*interruptRerunNodes, old(*interruptRerunNodes)) || fresh(*interruptRerunNodes)) && (sameArray(*interruptAfterNodes, old(*interruptAfterNodes)) || fresh(*interruptAfterNodes))
+//@   ensures[all_errors_classified] err == nil ==> forall(j int :: 0 <= j && j < len(completedTasks) ==> completedTasks[j].err == nil || in(completedTasks[j].nodeKey, subGraphInterrupts) || inList(completedTasks[j].nodeKey, *interruptRerunNodes))
+//@   ensures[grow] len(*interruptRerunNodes) >= old(len(*interruptRerunNodes)) && len(subGraphInterrupts) >= old(len(subGraphInterrupts))
 //@   loop 1:
 //@     modifies map(subGraphInterrupts), *interruptRerunNodes, *interruptAfterNodes, elems(*interruptRerunNodes), elems(*interruptAfterNodes), fresh()
 //@     invariant[idx] 0 <= i && i <= len(completedTasks)
 //@     invariant[disjoint] disjointLists(*interruptRerunNodes, *interruptAfterNodes) && disjointLists(*interruptRerunNodes, r.interruptAfterNodes) && disjointLists(*interruptAfterNodes, r.interruptAfterNodes)
 //@     invariant[lists_where] (sameArray(*interruptRerunNodes, old(*interruptRerunNodes)) || fresh(*interruptRerunNodes)) && (sameArray(*interruptAfterNodes, old(*interruptAfterNodes)) || fresh(*interruptAfterNodes))
 //@     invariant[no_plain] forall(j int :: 0 <= j && j < i ==> !(plainError(completedTasks[j].err) && completedTasks[j].err != InterruptAndRerun))
+//@     invariant[all_errors_classified] forall(j int :: 0 <= j && j < i ==> completedTasks[j].err == nil || in(completedTasks[j].nodeKey, subGraphInterrupts) || inList(completedTasks[j].nodeKey, *interruptRerunNodes))
+//@     invariant[grow] len(*interruptRerunNodes) >= old(len(*interruptRerunNodes)) && len(subGraphInterrupts) >= old(len(subGraphInterrupts))
 //@     invariant[subgraph_recorded] forall(j int :: 0 <= j && j < i && isSubInt(completedTasks[j].err) ==> in(completedTasks[j].nodeKey, subGraphInterrupts))
 //@     invariant[rerun_recorded] forall(j int :: 0 <= j && j < i && completedTasks[j].err == InterruptAndRerun ==> inList(completedTasks[j].nodeKey, *interruptRerunNodes))
 //@     invariant[after_recorded] forall(j int :: 0 <= j && j < i && completedTasks[j].err == nil && inList(completedTasks[j].nodeKey, r.interruptAfterNodes) ==> inList(completedTasks[j].nodeKey, *interruptAfterNodes))
@@ -940,7 +945,7 @@ package compose
 //@ func (*graph).addEdgeWithMappings
 //@   props C20
 //@   requires g != nil && g.nodes != nil && g.controlEdges != nil && g.dataEdges != nil && g.toValidateMap != nil
-//@   requires[separate_lists] disjointLists(g.dataEdges[startNode], g.controlEdges[startNode]) && disjointLists(g.dataEdges[startNode], g.startNodes) && disjointLists(g.dataEdges[startNode], g.endNodes)
+//@   requires[separate_lists] disjointLists(g.dataEdges[startNode], g.controlEdges[startNode]) && disjointLists(g.dataEdges[startNode], g.startNodes) && disjointLists(g.dataEdges[startNode], g.endNodes) && disjointLists(g.startNodes, g.endNodes) && disjointLists(g.startNodes, g.controlEdges[startNode]) && disjointLists(g.endNodes, g.controlEdges[startNode])
 //@   modifies g.buildError, map(g.controlEdges), map(g.dataEdges), g.startNodes, g.endNodes, elems(g.controlEdges[startNode]), elems(g.dataEdges[startNode]), elems(g.startNodes), elems(g.endNodes), validateState(g)
 //@   ensures[sticky] old(g.buildError) != nil ==> err == old(g.buildError) && g.buildError == old(g.buildError) && edgesSame(g)
 //@   ensures[compiled] old(g.buildError) == nil && g.compiled ==> err == ErrGraphCompiled && edgesSame(g)
@@ -953,6 +958,10 @@ package compose
 //@   ensures[dup_control] !noControl && old(inList(endNode, g.controlEdges[startNode])) ==> err != nil
 //@   ensures[dup_data] !noData && old(inList(endNode, g.dataEdges[startNode])) ==> err != nil
 //@   ensures[both_flags] noControl && noData ==> err != nil
+//@   ensures[data_only_no_entry_exit] noControl ==> g.startNodes == old(g.startNodes) && g.endNodes == old(g.endNodes)
+//@   ensures[entry_recorded] !noControl && err == nil && startNode == START ==> len(g.startNodes) == old(len(g.startNodes)) + 1 && g.startNodes[len(g.startNodes) - 1] == endNode
+//@   ensures[exit_recorded] !noControl && err == nil && endNode == END ==> len(g.endNodes) == old(len(g.endNodes)) + 1 && g.endNodes[len(g.endNodes) - 1] == startNode
+//@   ensures[not_entry_exit] err == nil && startNode != START && endNode != END ==> g.startNodes == old(g.startNodes) && g.endNodes == old(g.endNodes)
 //@   loop 1:
 //@     invariant[nodup] forall(j int :: 0 <= j && j < $i ==> g.controlEdges[startNode][j] != endNode)
 //@   loop 2:
@@ -1006,18 +1015,19 @@ package compose
 //@ func (*runner).initTaskManager
 //@   props C03 C09
 //@   requires r != nil
-//@   ensures[fresh] result != nil && fresh(result) && result.num == 0 && result.needAll == !r.eager && result.opts == opts
+//@   ensures[fresh] result != nil && fresh(result) && result.num == 0 && result.needAll == !r.eager && result.opts == opts && result.runWrapper == runWrapper
 
 //@ func (*runner).initChannelManager
 //@   props C09
 //@   trusted builds one fresh channel per subscribed node plus END with the compile-time predecessor tables (loops over maps calling the channel builder); the freshness claims are not yet verified
 //@   requires r != nil
 //@   ensures[fresh] result != nil && fresh(result) && cmOK(result) && tablesOK(result) && handlersOK(result) && result.isStream == isStream
-//@   ensures[channels] fresh(result.channels) && forall(k string :: in(k, r.chanSubscribeTo) ==> in(k, result.channels))
+//@   ensures[channels] fresh(result.channels) && in(END, result.channels) && forall(k string :: in(k, r.chanSubscribeTo) ==> in(k, result.channels))
+//@   ensures[fresh_maps] forall(k string :: in(k, result.channels) && isDag(result.channels[k]) ==> fresh(asDag(result.channels[k]).DataPredecessors))
 
 //@ func onGraphStart
 //@   trusted runs the graph-level start callbacks (user handlers); returns the possibly replaced context and input
-//@   ensures[ctx] ctxOK(result0) == ctxOK(ctx) && cpOf(result0) == cpOf(ctx) && pathOf(result0) == pathOf(ctx) && ctxValue(result0, "stateKey") == ctxValue(ctx, "stateKey")
+//@   ensures[ctx] ctxValue(result0, "checkPointKey") == ctxValue(ctx, "checkPointKey") && ctxValue(result0, "nodePathKey") == ctxValue(ctx, "nodePathKey") && ctxValue(result0, "stateKey") == ctxValue(ctx, "stateKey")
 //@   ensures[stream] isStream ==> is(result1, "streamReader")
 //@ func onGraphEnd
 //@   trusted runs the graph-level end callbacks (user handlers)
@@ -1027,21 +1037,24 @@ package compose
 
 //@ func (*taskManager).submit
 //@   props C03 C11
-//@   trusted the concurrent task protocol is the subject of C03 (not yet under contract): pre-processors run, tasks are started
-//@   requires t != nil
-//@   modifies t.num, region("F|compose.task|input"), region("GHOST|")
+//@   trusted the concurrent task protocol is the subject of C03 (not yet under contract): pre-processors run, every task is started exactly once; the ghost set "submitted" records the tasks handed over
+//@   requires t != nil && forall(i int :: 0 <= i && i < len(tasks) ==> tasks[i] != nil && tasks[i].call != nil)
+//@   modifies t.num, region("F|compose.task|input"), gset("submitted")
+//@   ensures[submitted] forall(x *task :: gset("submitted", x) == (old(gset("submitted", x)) || exists(i int :: 0 <= i && i < len(tasks) && tasks[i] == x)))
 //@ func (*taskManager).wait
 //@   props C03
-//@   trusted see submit
+//@   trusted see submit: returns tasks that were submitted, with their outputs (streams in stream mode: runnableTransform returns a stream reader)
 //@   requires t != nil
-//@   modifies t.num, region("F|compose.task|output"), region("F|compose.task|err"), region("GHOST|")
-//@   ensures[tasks] result1 == nil && forall(i int :: 0 <= i && i < len(result0) ==> result0[i] != nil) && (result0 == nil || fresh(result0))
+//@   modifies t.num, region("F|compose.task|output"), region("F|compose.task|err")
+//@   ensures[tasks] result1 == nil && forall(i int :: 0 <= i && i < len(result0) ==> result0[i] != nil && gset("submitted", result0[i])) && (result0 == nil || fresh(result0))
+//@   ensures[stream_kind] t.runWrapper == runnableTransform ==> forall(i int :: 0 <= i && i < len(result0) && result0[i].err == nil ==> is(result0[i].output, "streamReader"))
 //@ func (*taskManager).waitAll
 //@   props C03
-//@   trusted see submit
+//@   trusted see wait
 //@   requires t != nil
-//@   modifies t.num, region("F|compose.task|output"), region("F|compose.task|err"), region("GHOST|")
-//@   ensures[tasks] result1 == nil && forall(i int :: 0 <= i && i < len(result0) ==> result0[i] != nil) && (result0 == nil || fresh(result0))
+//@   modifies t.num, region("F|compose.task|output"), region("F|compose.task|err")
+//@   ensures[tasks] result1 == nil && forall(i int :: 0 <= i && i < len(result0) ==> result0[i] != nil && gset("submitted", result0[i])) && (result0 == nil || fresh(result0))
+//@   ensures[stream_kind] t.runWrapper == runnableTransform ==> forall(i int :: 0 <= i && i < len(result0) && result0[i].err == nil ==> is(result0[i].output, "streamReader"))
 
 //@ func (*checkPointer).restoreCheckPoint
 //@   trusted converts checkpointed values back to streams in stream mode (C05, C12)
@@ -1061,7 +1074,7 @@ package compose
 //@   pure
 //@ func setStateModifier
 //@   props C11
-//@   ensures[others] cpOf(result) == cpOf(ctx) && pathOf(result) == pathOf(ctx) && ctxValue(result, "stateKey") == ctxValue(ctx, "stateKey") && fresh(result)
+//@   ensures[others] ctxValue(result, "checkPointKey") == ctxValue(ctx, "checkPointKey") && ctxValue(result, "nodePathKey") == ctxValue(ctx, "nodePathKey") && ctxValue(result, "stateKey") == ctxValue(ctx, "stateKey") && fresh(result)
 
 //@ modset chanFields(c *channelManager) = forall(k string :: in(k, c.channels) && is(c.channels[k], "*dagChannel") ==> fields(asDag(c.channels[k]))), forall(k string :: in(k, c.channels) && is(c.channels[k], "*pregelChannel") ==> fields(asPregel(c.channels[k])))
 
@@ -1092,3 +1105,45 @@ package compose
 //@     modifies fresh()
 //@     invariant[cp] cp != nil && fresh(cp) && cp.Inputs != nil && fresh(cp.Inputs) && cp.Channels == channels && intInfo != nil && fresh(intInfo) && intInfo.BeforeNodes == interruptBeforeNodes && intInfo.AfterNodes == interruptAfterNodes
 //@     invariant[inputs_saved] forall(i int :: 0 <= i && i < $i ==> in(nextTasks[i].nodeKey, cp.Inputs))
+
+//@ spec callOK(r *runner, key string, ch *chanCall) bool = ch != nil && branchesOK(r, key, ch) && forall(b int, e string :: 0 <= b && b < len(ch.writeToBranches) && in(e, ch.writeToBranches[b].endNodes) ==> in(e, r.chanSubscribeTo) || e == END)
+//@ spec callsOK(r *runner) bool = callOK(r, START, r.inputChannels) && forall(k string :: in(k, r.chanSubscribeTo) ==> callOK(r, k, r.chanSubscribeTo[k]))
+//@ spec submittedOK(r *runner) bool = forall(x *task :: gset("submitted", x) ==> x != nil && in(x.nodeKey, r.chanSubscribeTo) && x.call == r.chanSubscribeTo[x.nodeKey])
+//@ spec nextOK(r *runner, ts []*task) bool = forall(i int :: 0 <= i && i < len(ts) ==> ts[i] != nil && in(ts[i].nodeKey, r.chanSubscribeTo) && ts[i].call == r.chanSubscribeTo[ts[i].nodeKey])
+//@ spec noneBefore(r *runner, ts []*task) bool = forall(i int :: 0 <= i && i < len(ts) ==> !inList(ts[i].nodeKey, r.interruptBeforeNodes))
+
+//@ func (*runner).handleInterruptWithSubGraphAndRerunNodes
+//@   props C05 C06
+//@   trusted folds the outputs of the other finished tasks into the channels and builds the nested checkpoint (C05); not yet under a functional contract
+//@   requires r != nil && cm != nil
+//@   modifies fresh(), chanCtl(cm), chanValsContent(cm), chanValsField(cm), region("F|compose.internalError|nodePath")
+//@   ensures[always_error] result != nil
+
+//@ func (*runner).run
+//@   props C01 C06 C10
+//@   paths 1
+//@   skip pre safe frame
+//@   uses getHitKey (*runner).resolveInterruptCompletedTasks (*runner).handleInterrupt (*runner).handleInterruptWithSubGraphAndRerunNodes newGraphRunError
+//@   note only the assertions, loop invariants and postconditions of run are checked; the preconditions of its callees, its implicit safety conditions and its write frame are NOT (the function is too large for the generator: 25 exits through a deferred callback literal); callee postconditions are assumed
+//@   requires r != nil && r.checkPointer != nil && ctxOK(ctx)
+//@   ghost supersteps int = 0
+//@   ghost starts int = 0
+//@   ghost ends int = 0
+//@   ghost fromCp bool = false
+//@   at call onGraphStart: ghost starts++
+//@   at call onGraphEnd: ghost ends++
+//@   at call onGraphError: ghost ends++
+//@   at call r.restoreTasks: ghost fromCp = true
+//@   at call tm.submit: assert[step_bound] @C01 r.dag || supersteps < maxSteps
+//@   at call tm.submit: assert[interrupt_before_honoured] @C06 (supersteps == 0 && fromCp) || noneBefore(r, nextTasks)
+//@   at call tm.submit: ghost supersteps++
+//@   at call 1 r.handleInterrupt: assert[initial_before_reported] @C06 forall(i int :: 0 <= i && i < len(nextTasks) && inList(nextTasks[i].nodeKey, r.interruptBeforeNodes) ==> inList(nextTasks[i].nodeKey, hit))
+//@   at call 2 r.handleInterrupt: assert[before_reported] @C06 forall(i int :: 0 <= i && i < len(nextTasks) && inList(nextTasks[i].nodeKey, r.interruptBeforeNodes) ==> inList(nextTasks[i].nodeKey, interruptBeforeNodes))
+//@   note the interrupt raised after draining (waitAll) reports the union of two getHitKey results; the membership of the second part in the appended list needs an offset witness the solvers do not find, so that half is not asserted
+//@   ensures[graph_callbacks_paired] @C10 starts == 1 && ends == 1
+//@   ensures[one_outcome] result == nil || err == nil
+//@   loop 3:
+//@     forget
+//@     invariant[counters] supersteps == step && step >= 0 && starts == 1 && ends == 0 && haveOnStart
+//@     invariant[limit] r.dag || maxSteps >= 1
+//@     invariant[tasks_filtered] (step == 0 && fromCp) || noneBefore(r, nextTasks)
